@@ -2,7 +2,7 @@
 import json
 
 from .. import x as X
-from .storebase import StoreProfile, gen_search, near_miss, typed_prefixes, JUNK_KINDS
+from .storebase import StoreProfile, gen_search, near_miss, typed_prefixes, JUNK_KINDS, SEPARATORS
 
 
 def answer(obs):
@@ -79,6 +79,10 @@ class FindersProfile(StoreProfile):
             from .base import gen_sid
             b2 = gen_sid(rng, m, self.vocab(run), t, run.scratch.get("value_pool"), reuse=0.6)
             base = b2 or base
+        # entities whose free-form value contains a file-name separator ('rig_b' next to 'rig'): asked for more often
+        seppy = [e for e in ents if any(sp in seg.strip(sp) for seg in e.split("/")[2:] for sp in SEPARATORS)]
+        if seppy and rng.random() < 0.12:
+            base = rng.choice(seppy)
         simple = rng.random() < 0.4
         keep = ()
         if rng.random() < 0.15:
@@ -109,6 +113,8 @@ class FindersProfile(StoreProfile):
             rec.append((step["s"], ans))
             del rec[:-5]
             run.state_mark("feats", step.get("feats"))
+            for f in step.get("feats") or []:
+                run.probes["search_feature:" + f] += 1
         else:
             raise ValueError(step["op"])
 
